@@ -85,3 +85,53 @@ func ruleReadFillsOrFails(c *eng.Ctx) {
 			"the reader can return with a nil error and a partly filled buffer (path "+w.String()+"): readMessage parses the stale rest of the buffer as a header and hands the subscriber a message that is not in the log")
 	}
 }
+
+// ruleFreshSegmentList (R01.14, shared with C03): the context readers look segments up in a list they fetched from the log in
+// the same Read call (or were handed by their caller in the same call), never in one remembered from an earlier call.
+// Between two calls a truncation can delete a segment and the next append re-create one with the same base offset: a
+// remembered list then leads the reader onto the deleted segment.
+func ruleFreshSegmentList(c *eng.Ctx) {
+	p := c.P
+	fresh := func(fn *ssa.Function, v ssa.Value) bool {
+		ok := true
+		n := 0
+		sources(v, map[ssa.Value]bool{}, func(s ssa.Value) {
+			n++
+			switch x := s.(type) {
+			case *ssa.Call:
+				if eng.CalleeRef(&x.Call) != cl+"commitLog.Segments" {
+					ok = false
+				}
+			case *ssa.Parameter:
+				// handed in by the caller: checked at the call sites below
+			default:
+				ok = false
+			}
+		})
+		return ok && n > 0
+	}
+	for _, key := range []string{cl + "(*uncommittedReader).Read", cl + "(*committedReader).Read", cl + "(*committedReader).readLoop"} {
+		fn := c.Fn(key)
+		if fn == nil {
+			continue
+		}
+		nLook, okAll, bad := 0, true, ""
+		for _, ref := range []string{cl + "findSegmentByBaseOffset", cl + "findSegment", cl + "getHWPos", cl + "findSegmentContains"} {
+			for _, call := range eng.CallsIn(fn, ref) {
+				nLook++
+				if !fresh(fn, call.Common().Args[0]) {
+					okAll, bad = false, c.Pos(call.(ssa.Instruction))
+				}
+			}
+		}
+		// a list passed on to readLoop is fresh as well
+		for _, call := range eng.CallsIn(fn, cl+"committedReader.readLoop") {
+			a := call.Common().Args
+			nLook++
+			if !fresh(fn, a[len(a)-1]) {
+				okAll, bad = false, c.Pos(call.(ssa.Instruction))
+			}
+		}
+		c.Check(okAll && nLook > 0, "segment lookups use a list fetched in the same call in "+ir.FuncKey(fn), p.Pos(fn.Pos()), "every list handed to a segment lookup comes from r.cl.Segments() of this call", "a segment lookup at "+bad+" uses a list that was not fetched from the log in this call (a field of the reader, a cached copy): after a truncation that deleted a segment and an append that re-created one at the same base offset the reader moves onto the deleted segment and fails, instead of delivering the retained messages followed by the new ones")
+	}
+}
